@@ -296,6 +296,32 @@ theorem pong_cancels_pingTimeout (s : S) (p : Bytes) (h : s.pingPending = some p
   simp only [h, if_true]
   split <;> simp [armPingNext, S.timer]
 
+/-- **pings keep coming** (local form): on an OPEN connection with automatic pings configured, every automatic ping
+arms either the pong deadline or — when no deadline is configured — the next ping itself (since the repair cde7fa2e;
+before it nothing was armed in that case and pinging stopped with the first unanswered ping) -/
+theorem sendAutoPing_rearms (s : S) (hst : s.st = .opened) (hi : s.cfg.pingInterval > 0) :
+    (sendAutoPing s).tPingTimeout.isSome ∨ (sendAutoPing s).tPingNext.isSome := by
+  unfold sendAutoPing
+  dsimp only
+  have hse := sendPing_SendEq (beginAutoPing s) ((beginAutoPing s).pingPending.getD [])
+  have hc : (sendPing (beginAutoPing s) ((beginAutoPing s).pingPending.getD [])).cfg = s.cfg := by rw [hse.cfg]; rfl
+  have hs : (sendPing (beginAutoPing s) ((beginAutoPing s).pingPending.getD [])).st = .opened := by
+    rw [hse.st]; exact hst
+  split
+  · left; simp [armPingTimeout, S.timer]
+  · right
+    rw [hc, hs]
+    simp [hi, armPingNext, S.timer]
+
+/-- a matching pong leaves the next ping armed -/
+theorem pong_rearms (s : S) (p : Bytes) (h : s.pingPending = some p) (hi : s.cfg.pingInterval > 0) :
+    (onPongFrame s p).tPingNext.isSome := by
+  unfold onPongFrame
+  simp only [h, if_true]
+  cases hn : s.tPingNext with
+  | none => simp [hi, hn, armPingNext, S.timer]
+  | some t => simp [hn]
+
 /-- the handshake completing cancels the opening-handshake deadline -/
 theorem handshakeDone_cancels_openHs (s : S) (h : s.st = .connecting) : (handshakeDone s).tOpenHs = none := by
   unfold handshakeDone
